@@ -274,17 +274,32 @@ theorem lit_dot : ".".toList = ['.'] := by decide
 theorem elem_some_pair (m a b : Str) : List.elem (some m) [some a, some b] = [a, b].contains m := by
   simp [List.elem, List.contains]
 
+/-- the proof shared by the two copies of the display-name computation: split on `__module__` being a str, then on the
+    membership test as an opaque Bool; `simp` does the rest whichever way the statements are arranged -/
+local macro "type_str_tac" t:ident : tactic => `(tactic| (
+  obtain ⟨m, q⟩ := $t
+  cases m with
+  | none => simp [List.elem, fmtOS, lit_dot]
+  | some m =>
+    simp only [Option.isSome_some, Bool.not_true, Bool.false_eq_true, if_false, elem_some_pair, lit_dot, Option.getD_some]
+    generalize [("__main__".toList), ("builtins".toList)].contains m = b
+    cases b <;> simp [fmtOS]))
+
 /-- **tie**: the display name computed by `ExceptionInfo.from_exc_info` (the statements from `type_str = ...` up to
     `val_str = ...`) is the model's `typeStr` -/
 theorem src_type_str_eq_model (t : ExcType) : Src.tbutils.ExceptionInfo.type_str t = typeStr t := by
   unfold Src.tbutils.ExceptionInfo.type_str typeStr plainMods
-  obtain ⟨m, q⟩ := t
-  cases m with
-  | none => simp [List.elem, fmtOS, lit_dot]
-  | some m =>
-    simp only [Option.isSome_some, Bool.not_true, Bool.false_eq_true, if_false, elem_some_pair, lit_dot]
-    generalize [("__main__".toList), ("builtins".toList)].contains m = b
-    cases b <;> simp [fmtOS]
+  type_str_tac t
+
+/-- **tie**: the second copy, in `format_exception_only` (from `stype = ...` up to the `issubclass` test; what
+    `print_exception` prints), is the model's `typeStr` as well -/
+theorem src_feo_type_str_eq_model (t : ExcType) : Src.tbutils.format_exception_only_type_str t = typeStr t := by
+  unfold Src.tbutils.format_exception_only_type_str typeStr plainMods
+  type_str_tac t
+
+example : Src.tbutils.format_exception_only_type_str ⟨some "pkg".toList, "E".toList⟩ = "pkg.E".toList := by decide
+example : Src.tbutils.format_exception_only_type_str ⟨none, "E".toList⟩ = "<unknown>.E".toList := by decide
+example : Src.tbutils.format_exception_only_type_str ⟨some "__main__".toList, "E".toList⟩ = "E".toList := by decide
 
 example : Src.tbutils.ExceptionInfo.type_str ⟨some "pkg.mod".toList, "A.B".toList⟩ = "pkg.mod.A.B".toList := by decide
 example : Src.tbutils.ExceptionInfo.type_str ⟨some "builtins".toList, "ValueError".toList⟩ = "ValueError".toList := by decide
